@@ -1257,6 +1257,18 @@ class TransferManager(BaseManager):
 
         transfer = self.find_transfer(username, filename, direction)
         fail_reason = None
+        shared_item = None
+
+        if transfer:
+            shared_item = await self._shares_manager.find_shared_item(
+                filename,
+                username
+            )
+            # Looking up the shared item suspends this handler: the transfer
+            # could have been removed in the meantime and nothing may change
+            # for a removed transfer. Look again: if it is gone the request is
+            # handled like any request for a file that is not in the list
+            transfer = self.find_transfer(username, filename, direction)
 
         if not transfer:
             try:
@@ -1269,10 +1281,6 @@ class TransferManager(BaseManager):
                 await transfer.state.queue()
 
         else:
-            shared_item = await self._shares_manager.find_shared_item(
-                filename,
-                username
-            )
             if not shared_item:
                 await transfer.state.fail(FailReason.FILE_NOT_SHARED)
                 fail_reason = FailReason.FILE_NOT_SHARED
